@@ -6,13 +6,13 @@ from mc.framework import Result
 
 ID = "C09"
 LEVEL = "model_checking"
-BATCH = 1
+BATCH = 2
 RULE = ("stateless DFS over every tie-break sequence (random.choice in the greedy loop) of the real "
         "EECC.get_EECC for every labelled graph without isolated vertices in the box and every m0; a case is "
         "non-trivial when the graph has a clique larger than m0 or the run reached >= 1 tie-break point")
 BOUNDS = {
     "quick": "all labelled graphs without isolated vertices on 2..6 vertices x m0 in 2..n+1 x all tie-breaks; "
-             "suite fixture (14 vertices) for m0 2..5",
+             "suite fixture (14 vertices) for m0 2..5; all 853 connected atlas graphs on 7 vertices in 2 labelings x m0 3..5 (K7, K7-e at m0=3 only in thorough)",
     "thorough": "quick + all connected atlas graphs on 7 vertices in 3 labelings x m0 2..8 x all tie-breaks "
                 "+ all labelled graphs on 6 vertices under a 1-based shuffled relabeling",
 }
@@ -24,6 +24,15 @@ FIXTURE = [(1, 2), (1, 14), (2, 4), (2, 13), (2, 14), (3, 4), (3, 5), (4, 5), (4
 
 
 def instances(tier, seed):
+    if tier == "quick":
+        # every connected 7-vertex graph up to isomorphism, two labelings, the size bounds around the clique number
+        # (first, densest first: their tie-break trees are the largest)
+        for n, edges in sorted(enumr.atlas_connected(7, 7), key=lambda g: -len(g[1])):
+            for lab in enumr.relabelings(7, seed, kinds=("identity", "reversed")):
+                for m0 in (3, 4, 5):
+                    if m0 == 3 and len(edges) >= 20:
+                        continue  # K7 and K7 minus an edge at m0 = 3: 2*10^4 tie-break sequences (thorough tier)
+                    yield {"kind": "edges", "edges": edges, "m0s": [m0], "labels": lab}
     for n in range(2, 7):
         masks = list(enumr.labelled_graph_masks(n, no_isolated=True))
         step = 96
